@@ -8,6 +8,19 @@
    height, the truth, or nothing -- at most MaxLies lying responses per behaviour (a bound
    of the model, not of the code).  All interleavings of the node's goroutines with the
    environment are explored.                                                          *)
+(* Deviations of the code that were observed on real runs, are harmless for the property and
+   are NOT actions of this machine (the trace spec TMFastSyncTrace names and tolerates them):
+     StaleRedo : bpRequester.redoCh may still hold a redo for an EARLIER incarnation of a peer id;
+                 it is honoured after the requester re-picked the re-joined peer, the request is
+                 sent twice, the second answer is an "invalid peer" error and the (honest) peer is
+                 stopped once more.  Costs a reconnect, nothing else.
+     RedoRace  : poolRoutine peeks the pair, verifies, and only then RedoRequest reads the
+                 requesters' CURRENT peer ids; a requester that was reset and re-picked in between
+                 gets its new, innocent peer stopped.
+     TipSlack  : see TipWhenHonest.
+   Repaired defects (old behaviour = Weak_ switch): Weak_SeenCommitUnchecked (S9: the commit stored as
+   seen commit was only checked by the early-exit VerifyCommitLight), Weak_StaleMaxPeerHeight (a peer
+   that lowers its reported height leaves maxPeerHeight stale for good: IsCaughtUp never holds). *)
 EXTENDS TMFastSyncOps
 
 VARIABLES
